@@ -461,6 +461,24 @@ func C06_Run(job string) {
 		var d c06In
 		z.Struct(z.Schema{"A": z.Int(), "B": z.String().Required(), "N": z.Struct(z.Schema{"X": z.Int().Required()}),
 			"L": z.Slice(z.Int()), "P": z.Ptr(z.Int())}).Parse(in, &d)
+		// unexported fields spelled like the schema keys: they cannot be read and are simply absent
+		type hidden struct {
+			a int
+			b string
+			n c06Inner
+			l []int
+			p *int
+			N int
+		}
+		h := hidden{a: n, b: str, n: c06Inner{X: n}, l: []int{n}, p: np}
+		lower := z.Struct(z.Schema{"a": z.Int(), "b": z.String().Required(), "n": z.Struct(z.Schema{"x": z.Int().Required()}),
+			"l": z.Slice(z.Int()), "p": z.Ptr(z.Int())})
+		var d2 c06In
+		if v.Choice("hidden-by-pointer", 2) == 1 {
+			lower.Parse(&h, &d2)
+		} else {
+			lower.Parse(h, &d2)
+		}
 	case "odd-tags":
 		// struct tags are configuration a destination type may legally carry: empty, punctuation,
 		// bracket-led, non-ASCII and very long tag values at every depth, with a failing leaf under each
